@@ -189,6 +189,29 @@ Proof.
   simpl in Hanc. exact (anc_path_acyclic ds i pi Hanc j Hr Hc).
 Qed.
 
+(* with a float oracle that answers every call (no recorded-table miss) "never Ok" is "an error" *)
+Theorem not_ok_is_error : forall F prime ds,
+  (forall dt v w, convert F dt v prime <> Panic w) ->
+  (forall es, entries_from_rdf F prime ds <> Ok es) ->
+  exists t, entries_from_rdf F prime ds = Err t.
+Proof.
+  intros F prime ds HF Hno. destruct (entries_total F prime ds) as (T1 & T2).
+  destruct (entries_from_rdf F prime ds) as [es|t|w|] eqn:E.
+  - exfalso. eapply Hno; eauto.
+  - eauto.
+  - exfalso. destruct (T2 w eq_refl) as (dt & v & Hc). eapply HF; eauto.
+  - congruence.
+Qed.
+
+Theorem cycle_is_error : forall F prime ds i q j,
+  is_map ds -> (forall dt v w, convert F dt v prime <> Panic w) ->
+  In (i, q) (value_quads ds) -> reaches ds i j -> on_cycle ds j ->
+  exists t, entries_from_rdf F prime ds = Err t.
+Proof.
+  intros F prime ds i q j Hm HF Hin Hr Hc. apply not_ok_is_error; [exact HF|].
+  eapply cycle_rejected; eauto.
+Qed.
+
 (* ================= Examples (non-vacuity) ================= *)
 Definition F0 : floats := {| f_parse := fun _ => None; f_canon := fun _ => None; f_of_int := fun _ => None |}.
 Definition xs := "http://www.w3.org/2001/XMLSchema#string".
